@@ -66,6 +66,8 @@ type acaseT struct {
 	// itself right before it fails (PreAt 1: a handler that had prepared a download)
 	PreCT *string `json:",omitempty"`
 	PreAt int     `json:",omitempty"`
+	// AbortFirst: the failing handler calls c.Abort() itself before it fails (guard style)
+	AbortFirst bool `json:",omitempty"`
 	// Tail: a last path segment captured by a :tail parameter, any bytes but '/' (percent-encoded on
 	// the wire); it reaches the body through req.URL.Path (RFC 9457 `instance`)
 	Tail bstr `json:",omitempty"`
@@ -268,6 +270,9 @@ func handlerAt(i int) app.HandlerFunc {
 			c.Header("X-Prepared", "1")
 		}
 		if i == k.Pos {
+			if k.AbortFirst {
+				c.Abort()
+			}
 			switch k.Call.Kind {
 			case "fail":
 				c.Fail(sl.err)
@@ -810,6 +815,7 @@ func lineA(id string, k acaseT, o obsT, answers []string, st *hx.Stats) string {
 	} else {
 		l.Bool(false)
 	}
+	l.Bool(k.AbortFirst)
 	l.Nat(k.Pos)
 	l.Tok(strings.TrimSpace(el.String()))
 	in := l.String()
@@ -849,6 +855,9 @@ func lineA(id string, k acaseT, o obsT, answers []string, st *hx.Stats) string {
 		}
 		if k.PreCT != nil {
 			st.Count("fail_content_type_preset_" + strconv.Itoa(k.PreAt))
+		}
+		if k.AbortFirst {
+			st.Count("fail_after_abort")
 		}
 	}
 	return l.String()
